@@ -2,7 +2,9 @@ package c14
 
 import (
 	"bytes"
+	"encoding/hex"
 	"fmt"
+	"sort"
 	"strings"
 
 	dtls "github.com/pion/dtls/v3"
@@ -60,6 +62,33 @@ func Judge(cfg Config, recs []*ConnRec) []Finding {
 			se, sHas := r.PreS[string(r.Wire.OfferedSID)]
 			out = append(out, Finding{"abbreviated-success-without-matching-secret/" + who, fmt.Sprintf("%s: abbreviated handshake (ServerHello echoed offered id %x, no Certificate/ServerKeyExchange/ServerHelloDone) succeeded at %s although the stores did not hold the same secret for that id: client entry id=%x secret=%x(%dB); server has entry=%v secret=%x(%dB)",
 				at, r.Wire.OfferedSID, who, ce.ID, head(ce.Secret), len(ce.Secret), sHas, head(se.Secret), len(se.Secret))})
+		}
+		// (a') a stored session keeps the secret it was stored with: between the start and the end of a connection
+		// an entry's secret may be replaced only by the master secret of a handshake of THIS connection (a new
+		// session under the same key). Anything else means the stored secret was altered in place, and a later
+		// abbreviated handshake would run under a value no full handshake ever established.
+		for _, side := range []string{"client", "server"} {
+			pre, post, ms := r.PreC, r.PostC, r.CMS
+			if side == "server" {
+				pre, post, ms = r.PreS, r.PostS, r.SMS
+			}
+			keys := make([]string, 0, len(pre))
+			for key := range pre {
+				keys = append(keys, key)
+			}
+			sort.Strings(keys)
+			for _, key := range keys {
+				was := pre[key]
+				now, still := post[key]
+				if !still || bytes.Equal(now.Secret, was.Secret) {
+					continue
+				}
+				if ms != "" && hex.EncodeToString(now.Secret) == ms {
+					continue
+				}
+				out = append(out, Finding{"stored-secret-altered-in-place/" + side, fmt.Sprintf("%s: the %s's stored session %x held secret %x(%dB) before this connection and %x(%dB) after it, which is not the master secret of a handshake of this connection (%q): the stored secret was altered in place",
+					at, side, head(was.ID), head(was.Secret), len(was.Secret), head(now.Secret), len(now.Secret), ms)})
+			}
 		}
 		// Tampered Finished: the receiving side must not complete.
 		switch r.Tamper {
